@@ -16,6 +16,9 @@ struct Job {
     share: f64,
 }
 
+/// histories up to this depth get the mutation-during-flush enumeration (quick 2, thorough 3)
+static MIDFLUSH_DEPTH: std::sync::atomic::AtomicUsize = std::sync::atomic::AtomicUsize::new(2);
+
 fn mode() -> Mode<TfsOp> {
     Mode::Crash(CrashOpts {
         followups: vec![
@@ -27,6 +30,9 @@ fn mode() -> Mode<TfsOp> {
         ],
         cuts: true,
         err_prefixes: true,
+        // a new id sharing terms with buckets of the snapshot / removal of a document of the snapshot
+        midflush: vec![TfsOp::Insert(4, 1), TfsOp::Insert(4, 2), TfsOp::RemoveOriginal(1), TfsOp::RemoveOriginal(2)],
+        midflush_depth: MIDFLUSH_DEPTH.load(std::sync::atomic::Ordering::Relaxed),
     })
 }
 
@@ -56,6 +62,7 @@ fn run_job(run: &mut Run, job: &Job, budget_s: f64) -> ExploreOut {
 
 fn main() {
     let mut run = Run::from_args("C11", "crash", "model_checking");
+    MIDFLUSH_DEPTH.store(run.tier.pick(2, 3), std::sync::atomic::Ordering::Relaxed);
     if let Some(file) = run.replay_file.clone() {
         let doc: serde_json::Value = match std::fs::read(&file).ok().and_then(|d| serde_json::from_slice(&d).ok()) {
             Some(d) => d,
@@ -106,7 +113,10 @@ fn main() {
          battery (counters, every term, 6 boolean shapes) as the last committed model or as the interrupted flush's \
          model (whole); from each distinct crash state 5 follow-up ops (insert new id, re-insert id 1, remove, purge_ids, compact) \
          each followed by flush + load + battery. Every write position is also failed once: flush must return Err, live index \
-         unchanged, durable state = last commit or the failed flush in full, a retried flush persists the state",
+         unchanged, durable state = last commit or the failed flush in full, a retried flush persists the state. \
+         Mutation during a flush (histories to depth 2 quick / 3 thorough): at every write position one mutation from a small set is \
+         applied from INSIDE the flush write closure (the flush is suspended in its I/O); the disturbed flush must commit the \
+         pre-mutation snapshot whole, the live index has the mutation, and the next undisturbed flush + load has it too",
     );
     run.assume("a crash loses exactly the writes not yet acknowledged by the flush closures; object puts/deletes are atomic per object");
     run.assume("legacy start state fabricated from a real flush (manifest stripped, objects renamed to generation 0)");
